@@ -482,7 +482,7 @@ func runC15(w *World, r *Report) {
 			}
 		}
 		if total < 2 {
-			undecidedf("C15.mapping-state-not-carried: only %d loops over []*FieldMapping found", total)
+			r.Deferred = append(r.Deferred, fmt.Sprintf("C15.mapping-state-not-carried: only %d loops over []*FieldMapping found", total))
 		}
 	}
 
@@ -873,7 +873,7 @@ func runC15(w *World, r *Report) {
 			r.Check(bad == token.NoPos, "C15.request-time-no-panic", w.fname(origin(fn))+" has no explicit panic", fn.Pos(), "errors are returned", "request-time mapping code panics explicitly at "+w.pos(bad)+": a value the static check could not see (a typed nil / unexpected dynamic type behind an interface, a zero-value input of a node none of whose data predecessors ran, a nil into map[string]*T …) takes the run down with a panic instead of an ordinary error")
 		}
 		if n < 8 {
-			undecidedf("C15.request-time-no-panic: only %d request-time functions in field_mapping.go", n)
+			r.Deferred = append(r.Deferred, fmt.Sprintf("C15.request-time-no-panic: only %d request-time functions in field_mapping.go", n))
 		}
 	}
 
